@@ -264,11 +264,12 @@ Record rtfuns := mkFuns {
   rpoll : nat -> waker -> fstate -> heap -> option (pres * heap);
   rpoll_next : nat -> waker -> heap -> option (pn * heap);
   rsettle : nat -> heap -> option heap;
+  rloop : nat -> heap -> option heap;
   rdrain : nat -> heap -> option heap;
   rrun_task : nat -> nat -> heap -> option (tstate * heap)
 }.
 Definition funs0 : rtfuns :=
-  mkFuns (fun _ _ _ _ => None) (fun _ _ _ => None) (fun _ _ => None) (fun _ _ => None) (fun _ _ _ => None).
+  mkFuns (fun _ _ _ _ => None) (fun _ _ _ => None) (fun _ _ => None) (fun _ _ => None) (fun _ _ => None) (fun _ _ _ => None).
 
 Definition poll_body (F : rtfuns) (c : nat) (w : waker) (fs : fstate) (H : heap) : option (pres * heap) :=
   let en := f_env fs in let st := f_stack fs in
@@ -382,19 +383,21 @@ Definition poll_next_body (F : rtfuns) (cid : nat) (w : waker) (H : heap) : opti
     end
   end end.
 Definition settle_body (F : rtfuns) (cid : nat) (H : heap) : option heap :=
+  (* run_until_settled: the abort flag is looked at once, on entry *)
   if was_aborted cid H then
     (* self.tasks.clear(); return *)
     let c := gcmd cid H in
     let H1 := ucmd cid slab_clear H in
     Some (note B_AbortClear
       (fold_left (fun Hh e => match e with Occ t => kill_flag (t_uid t) (drop_fs DF (t_fs t) Hh) | Vac _ => Hh end) (c_ent c) H1))
-  else
+  else rloop F cid H.
+(* loop { spawn_new_tasks(); if ready_queue.is_empty() { break }; drain the ready queue } *)
+Definition loop_body (F : rtfuns) (cid : nat) (H : heap) : option heap :=
   let c := gcmd cid H in
-  (* spawn_new_tasks *)
   let H1 := fold_left (fun Hh t => ucmd cid (spawn_one t) Hh) (c_spawnq c) (ucmd cid (set_spawnq []) H) in
   match c_ready (gcmd cid H1) with
   | [] => Some H1
-  | _ :: _ => match rdrain F cid H1 with None => None | Some H2 => rsettle F cid H2 end
+  | _ :: _ => match rdrain F cid H1 with None => None | Some H2 => rloop F cid H2 end
   end.
 Definition drain_body (F : rtfuns) (cid : nat) (H : heap) : option heap :=
   match c_ready (gcmd cid H) with
@@ -436,11 +439,12 @@ Definition run_task_body (F : rtfuns) (cid slot : nat) (H : heap) : option (tsta
   end.
 
 Definition step_funs (F : rtfuns) : rtfuns :=
-  mkFuns (poll_body F) (poll_next_body F) (settle_body F) (drain_body F) (run_task_body F).
+  mkFuns (poll_body F) (poll_next_body F) (settle_body F) (loop_body F) (drain_body F) (run_task_body F).
 Fixpoint funs (fuel : nat) : rtfuns :=
   match fuel with 0 => funs0 | S f => step_funs (funs f) end.
 Definition poll (fuel : nat) := rpoll (funs fuel).
 Definition poll_next (fuel : nat) := rpoll_next (funs fuel).
 Definition settle (fuel : nat) := rsettle (funs fuel).
+Definition settle_loop (fuel : nat) := rloop (funs fuel).
 Definition drain (fuel : nat) := rdrain (funs fuel).
 Definition run_task (fuel : nat) := rrun_task (funs fuel).
